@@ -83,4 +83,11 @@ func VF_C19_Patch() {
 	vf.Reach("delivered")
 	vf.Assert(jsonDeepEq(b.doc.GetValue(), c19Docs[tgt].tree), "C19 the emitted operations bring the other replica to the target")
 	vf.Assert(docInv(a.doc) && docInv(b.doc), "L3 invariants after the patch")
+	// the chain continues: a third document (array slots and keys replaced once are replaced again)
+	third := []int{1, 3, 4, 10, 12}[vf.Choice("third", 5)]
+	_, err3 := a.doc.PatchByJSON(c19Docs[third].text)
+	vf.Assert(err3 == nil && jsonDeepEq(a.doc.GetValue(), c19Docs[third].tree), "C19 a further patch yields its target too")
+	b.receive(a.flush())
+	vf.Reach("chained")
+	vf.Assert(jsonDeepEq(b.doc.GetValue(), c19Docs[third].tree), "C19 the other replica follows a chain of patches")
 }
